@@ -34,14 +34,18 @@ EXPLANATION = (
     'counter stepped by c from 0 stays a multiple of c), so `i < peeling_end` yields i + c <= peeling_end and every packet load / store '
     'of PacketSize rows stays below nrow. '
     '(D13) every aligned packet access has alignment evidence for the very column it touches (today: no aligned access at all). '
-    'Does NOT decide NaN-freedom in general, '
-    'DoubleShiftQR::apply_PX(vector) whose third-row read depends on the stored reflector sizes, BKLDLT::solve_inplace (depends on '
-    'the sign pattern of the stored permutation), or undefined behaviour outside these clauses.')
+    '(D14) content invariant of the reflector-size array: every write stores 1, 2 or 3 with size + column <= n (the size-3 case '
+    'only at calls whose third argument is not the literal zero), every column of a block gets a size, and the readers use the '
+    'invariant: the vector form of apply_PX reads entry k+1 only for size >= 2 and entry k+2 only for size 3. '
+    'Does NOT decide NaN-freedom in general, BKLDLT::solve_inplace (depends on the sign pattern of the stored permutation: a block '
+    'structure invariant of an array), or undefined behaviour outside these clauses.')
 ASSUMPTIONS = ['class invariants = negation of the constructor guards (C12 shows they equal the documented ranges)',
                'elements of an index vector returned by the ordering primitive lie in [0, length) (C18: it is a permutation)',
                'the small decompositions of the ncv x ncv matrix H return ncv eigenvalues and ncv x ncv eigenvectors',
                'the number of converged flags is between 0 and nev',
                'the double-shift QR class is used with n >= 2 (the solver bases construct it with ncv >= 3)',
+               'DoubleShiftQR::m_near_0 is a positive constant (its default member initialiser is TypeTraits<Scalar>::min() * 10), so |0| < m_near_0',
+               'a vector handed to DoubleShiftQR::apply_QtY has length n',
                'a matrix handed to UpperHessenbergQR::apply_YQ has n columns (its callers pass ncv x ncv matrices to a decomposition of size ncv)']
 
 N_, NEV, NCV = ('f', 'm_n'), ('f', 'm_nev'), ('f', 'm_ncv')
@@ -830,18 +834,27 @@ def pointer_kernel_contracts(ctx, rule='pointer-kernel-contracts'):
         'compute': {},
         'update_block': {'pre': ['0 <= il', 'il <= iu', 'iu <= m_n - 1'],
                          'callsite_assumed': {'compute': 'blocks are [z_i, z_{i+1} - 1] of the increasing deflation points 0 = z_0 < ... = n (rule double-shift-block-within-matrix)'}},
-        'compute_reflector/4': {'pre': ['0 <= ind', 'ind <= m_n - 1']},
-        'compute_reflector/2': {'pre': ['0 <= ind', 'ind <= m_n - 1']},
+        # the reflector of column `ind` touches rows ind .. ind + nr - 1: nr = 3 needs ind <= n - 3.  The size written is 3 only
+        # when the third entry is not negligible; a call that passes the literal 0 there can only write 1 or 2 (|0| < m_near_0, the
+        # threshold is a positive constant): two variants of the member, chosen at each call site by that argument
+        'compute_reflector/4': {'pre': ['0 <= ind', 'ind <= m_n - 1'], 'variants': [
+            {'name': 'third-entry-is-literal-zero', 'pre': ['ind <= m_n - 2'], 'assume_true': ['(x3m < m_near_0)'],
+             'when': lambda f, a: (f.strip(a[2]) or {}).get('k') in ('IntegerLiteral',) and (f.strip(a[2]) or {}).get('val') == '0'},
+            {'name': 'three-entries', 'pre': ['ind <= m_n - 3'], 'when': lambda f, a: True}]},
+        'compute_reflector/2': {'pre': ['0 <= ind', 'ind <= m_n - 3']},
         'apply_PX/3': {'pre': ['2 <= rows_X', '0 <= u_ind', 'u_ind <= m_n - 1']},
-        'apply_PX/2': {'pre': ['0 <= u_ind', 'u_ind <= m_n - 1']},
+        'apply_PX/2': {'pre': ['0 <= u_ind', 'u_ind <= m_n - 1'], 'ptr_origin': {'x': 'u_ind'}},
         'apply_XP': {'pre': ['2 <= cols_X', '0 <= u_ind', 'u_ind <= m_n - 1']},
         'apply_YQ': {},
         'apply_QtY': {},
     }, windows={'compute_reflector/2': dict(params=['x', 'ind'], ptr='x', rows=3, cols=1)})
     DS.symbolic_params = ('X',)
+    # content invariant of the reflector-size array: entry k is 1, 2 or 3 and the reflector fits below row k
+    DS.array_inv = {'m_ref_nr': ['1 <= val', 'val <= 3', 'val + idx <= m_n']}
     D3 = Dense({'m_mat_H': dict(rows='m_n', cols='m_n'), 'm_ref_u': dict(rows=3, cols='m_n'), 'm_ref_nr': dict(rows='m_n'),
-                'X': dict(rows='rows_X', cols='cols_X', stride='stride'), 'XW': dict(rows=3)},
-               {'compute': {'Hii': 'm_mat_H'}, 'compute_reflector': {'u': 'm_ref_u', 'nr': 'm_ref_nr', 'x': 'XW'}, 'apply_PX': {'xptr': 'X'},
+                'X': dict(rows='rows_X', cols='cols_X', stride='stride'), 'XW': dict(rows=3), 'YV': dict(rows='m_n'), 'y': dict(rows='m_n')},
+               {'compute': {'Hii': 'm_mat_H'}, 'compute_reflector': {'u': 'm_ref_u', 'nr': 'm_ref_nr', 'x': 'XW'}, 'apply_PX': {'xptr': 'X', 'x': 'YV'},
+                'apply_QtY': {'y_ptr': 'y'},
                 'apply_XP': {'X0': 'X', 'X1': 'X', 'X2': 'X'}})
     HH = contracts.Spec('Spectra::UpperHessenbergSchur', [], {}, {
         'apply_householder_left': {'pre': ['0 <= ncol']},
@@ -851,8 +864,15 @@ def pointer_kernel_contracts(ctx, rule='pointer-kernel-contracts'):
     D4 = Dense({'WL': dict(rows=3, cols='ncol', stride='stride'), 'WR': dict(rows='nrow', cols=3, stride='stride')},
                {'apply_householder_left': {'x': 'WL', 'x_end': 'WL'}, 'apply_householder_right': {'x': 'WR', 'x0': 'WR', 'x1': 'WR', 'x2': 'WR'},
                 'apply_householder_right_simd': simd})
-    D3.unmodelled = {'apply_PX': {'x': 'vector overload: whether x[2] is read depends on the stored reflector size nr (a content invariant of m_ref_nr)'},
-                     'apply_QtY': {'y_ptr': 'walks the vector handed to the vector overload of apply_PX (same reason)'}}
+    D3.param_origin = {'apply_PX': {'x': ('0', 'u_ind')}}      # the vector overload receives a pointer to entry u_ind of a length-n vector
+    # the variant `third-entry-is-literal-zero` assumes (x3m < m_near_0) for x3 == 0: x3m must be |x3| of the third parameter
+    for f_ in ctx.F.concrete():
+        if f_.cls == 'Spectra::DoubleShiftQR' and f_.name == 'compute_reflector' and len(f_.params) == 4 and f_.cfg:
+            p3 = f_.locals[f_.params[2]]['name']
+            defs = [sym(f_, d_['init'], inline=False) for x_ in f_.walk() if x_['k'] == 'DeclStmt' for d_ in x_['decls'] if 'init' in d_ and f_.locals[d_['var']]['name'] == 'x3m']
+            okm = defs == [('call', 'abs', ('P', p3))]
+            ctx.check(okm, rule, 'DoubleShiftQR::compute_reflector/negligibility-test', f_.qname,
+                      'the size-3 test compares |x3| of the third parameter with the positive threshold' if okm else 'x3m is %s, not abs of the third parameter' % [show(t_) for t_ in defs])
     tot = contracts.verify_dense(ctx, HH, D4, _check_sites, rule, min_sites=30)
     for spec, dm, floor in ((HQ, D1, 25), (TQ, D2, 20), (DS, D3, 60)):
         tot += contracts.verify_dense(ctx, spec, dm, _check_sites, rule, min_sites=floor)
@@ -1049,6 +1069,107 @@ def aligned_access_evidence(ctx, rule='aligned-packet-access-has-alignment-evide
         raise AnalysisBroken('aligned-access rule: positive control not matched')
     if nsite == 0:
         ctx.ok(rule, 'whole library', 'Spectra', 'no aligned packet access anywhere: every packet load / store is the unaligned form (positive control matched)')
+
+
+
+def reflector_sizes_cover_block(ctx, rule='reflector-size-written-for-every-column'):
+    """The readers of the reflector-size array rely on its content invariant (contracts); an entry that is never written holds
+    whatever resize() left there.  update_block(il, iu) must write the size of every column il .. iu on each of its three
+    paths (block size 1, 2, >= 3): the written indices, in order, start at il, end at iu and are consecutive -- the chase loop
+    contributes il + i for 1 <= i < bsize - 2.  Blocks partition 0 .. n-1 (rule double-shift-block-within-matrix)."""
+    for fn in ctx.F.insts('Spectra::DoubleShiftQR::update_block'):
+        il, iu = (ranges.linform(fn, {'k': 'DeclRefExpr', 'var': v, 'id': -1, 'name': fn.locals[v]['name']}) if False else {('v', v): 1, 1: 0} for v in fn.params[:2])
+        bs = None
+        for x in fn.walk():
+            if x['k'] == 'DeclStmt':
+                for d in x['decls']:
+                    if 'init' in d and fn.locals[d['var']]['name'] == 'bsize':
+                        bs = ranges.linform(fn, fn.nodes[d['init']])
+        if bs is None or ranges.lf_sub(bs, {**{k: v for k, v in iu.items()}, **{}}) is None:
+            raise AnalysisBroken('%s: block size not found' % fn.qname)
+        want_bs = ranges.lf_sub(iu, il)
+        want_bs[1] = want_bs.get(1, 0) + 1
+        problems = []
+        if {k: v for k, v in ranges.lf_sub(bs, want_bs).items() if v != 0} != {}:
+            problems.append('block size is not iu - il + 1')
+        # writes in source order with their guards
+        events = []
+        for x in fn.walk():
+            idx = None
+            if x['k'] in ('BinaryOperator', 'CXXOperatorCallExpr') and x.get('op') == '=':
+                t = sym(fn, x, inline=False)
+                if t[1][0] == 'coeffRef' and t[1][1] == ('F', 'm_ref_nr'):
+                    ops = fn.call_args(x) if x['k'] == 'CXXOperatorCallExpr' else [fn.nodes[c] for c in x['c']]
+                    lhs = fn.strip(ops[0])
+                    idx = fn.call_args(lhs)[-1]
+            elif x['k'] == 'CXXMemberCallExpr' and x.get('callee') == 'compute_reflector':
+                idx = fn.call_args(x)[-1]
+            if idx is None:
+                continue
+            guards = []
+            loop = None
+            for a in fn.ancestors(x):
+                if a['k'] == 'IfStmt' and fn.within(x, a['then']):
+                    guards.append(show(sym(fn, a['cond'], inline=False)))
+                if a['k'] == 'ForStmt' and loop is None:
+                    loop = a
+            events.append((x.get('l', 0), idx, tuple(guards), loop))
+        events.sort(key=lambda e: e[0])
+        paths_ = {'bsize == 1': [e for e in events if any('== 1' in g or '1 ==' in g for g in e[2])],
+                  'bsize == 2': [e for e in events if any('== 2' in g or '2 ==' in g for g in e[2])],
+                  'bsize >= 3': [e for e in events if not e[2]]}
+        from .eigsbase import loop_range
+        for name, evs in paths_.items():
+            if not evs:
+                problems.append('%s: no size is written' % name)
+                continue
+            assume = {'bsize == 1': 1, 'bsize == 2': 2}.get(name)
+            cur = None          # last index written so far (linear form)
+            for (_, idx, _, loop) in evs:
+                f_ = ranges.linform(fn, idx)
+                if f_ is None:
+                    problems.append('%s: non-linear index %s' % (name, fn.s(idx['id'])))
+                    break
+                if loop is not None:
+                    rg = loop_range(fn, loop)
+                    if rg is None:
+                        problems.append('%s: loop range not recognised' % name)
+                        break
+                    lo = ranges.linform(fn, fn.node(loop['init'])['decls'][0]['init'])
+                    hi = ranges.linform(fn, fn.nodes[fn.strip(fn.nodes[loop['cond']])['c'][1]])
+                    ivar = ('v', fn.node(loop['init'])['decls'][0]['var'])
+                    first = {k: v for k, v in f_.items() if k != ivar}
+                    for k, v in lo.items():
+                        first[k] = first.get(k, 0) + v * f_.get(ivar, 0)
+                    last = {k: v for k, v in f_.items() if k != ivar}
+                    for k, v in hi.items():
+                        last[k] = last.get(k, 0) + v * f_.get(ivar, 0)
+                    last[1] = last.get(1, 0) - 1
+                    seq = [(first, 'first'), (last, 'last')]
+                else:
+                    seq = [(f_, 'single')]
+                for form, kind in seq:
+                    if cur is None:
+                        if {k: v for k, v in ranges.lf_sub(form, il).items() if v != 0} != {}:
+                            problems.append('%s: the first size written is for column %s, not il' % (name, fn.s(idx['id'])))
+                    elif kind != 'last':
+                        d_ = ranges.lf_sub(form, cur)
+                        if {k: v for k, v in d_.items() if v != 0} != {1: 1}:
+                            problems.append('%s: column %s does not follow the previous one written' % (name, fn.s(idx['id'])))
+                    if kind != 'first':
+                        cur = form
+                    elif cur is not None or True:
+                        cur = cur if kind == 'first' and False else form
+            if cur is not None:
+                end = dict(cur)
+                d_ = ranges.lf_sub(end, iu)
+                if assume is not None:
+                    # iu = il + assume - 1
+                    d_ = ranges.lf_sub(end, {**il, 1: il.get(1, 0) + assume - 1})
+                if {k: v for k, v in d_.items() if v != 0} != {}:
+                    problems.append('%s: the last size written is for column %s, not iu' % (name, _show_lin(fn, (None, 0)) if False else str(end)))
+        ctx.check(not problems, rule, 'DoubleShiftQR::update_block', fn.qname,
+                  'on each of the three paths the sizes of columns il, il+1, ..., iu are written, in order, without a gap' if not problems else '; '.join(problems[:3]))
 
 
 def _show_lin(fn, lin):
@@ -1350,6 +1471,7 @@ def run(ctx):
     packed_storage_contracts(ctx)
     aligned_access_evidence(ctx)
     pointer_kernel_contracts(ctx)
+    reflector_sizes_cover_block(ctx)
 
 
 def _run(ctx):
